@@ -34,9 +34,9 @@ type Entry struct {
 	Child ID
 }
 
-func (e Entry) IsTree() bool      { return e.Mode&0o170000 == 0o40000 }
-func (e Entry) IsGitlink() bool   { return e.Mode&0o170000 == 0o160000 }
-func (e Entry) IsSymlink() bool   { return e.Mode&0o170000 == 0o120000 }
+func (e Entry) IsTree() bool    { return e.Mode&0o170000 == 0o40000 }
+func (e Entry) IsGitlink() bool { return e.Mode&0o170000 == 0o160000 }
+func (e Entry) IsSymlink() bool { return e.Mode&0o170000 == 0o120000 }
 
 type Object struct {
 	Kind Kind
